@@ -381,24 +381,32 @@ func generatesOutsidePointerCtx(d *dg.Design, a *dg.Attr, seen map[string]bool) 
 	return false
 }
 
-// mapValueRequiredOnly: the violated `required` rule sits in a user type reached as a map
-// key / value whose only validations are required primitive attributes.
-func mapValueRequiredOnly(d *dg.Design, a *dg.Attr, path string) bool {
+// mapNestedCollectionRequiredOnly: the violated `required` rule sits in a user type whose
+// only validations are required primitive attributes, met as element of an array or value /
+// key of a map that is itself BELOW A MAP with no user type in between: goa validates
+// arrays and maps found under a map with Pointer = false, where hasValidations finds
+// nothing to call for such a type. (User types that are directly keys / values of a map
+// keep the attribute context since the repair of recurseValidationCode.)
+func mapNestedCollectionRequiredOnly(d *dg.Design, a *dg.Attr, path string) bool {
 	if a == nil {
 		return false
 	}
 	as := attrsAlong(d, a, path)
-	underMap := false // below a map key / value with no user type in between (goa validates there with Pointer=false)
+	ptrFalse := false
 	for i := 0; i+1 < len(as); i++ {
 		bt, _ := d.Effective(as[i])
+		ch := as[i+1]
+		cbt, _ := d.Effective(ch)
+		chUser := ch.T.Kind == "user" && cbt.Kind == "object"
 		switch {
 		case as[i].T.Kind == "user" && bt.Kind == "object":
-			underMap = false
+			ptrFalse = false // inside Validate<T>: the file context again
 		case bt.Kind == "map":
-			underMap = true
+			if !chUser && cbt.Kind != "object" {
+				ptrFalse = true
+			}
 		}
-		ch := as[i+1]
-		if underMap && ch.T.Kind == "user" && (bt.Kind == "map" || bt.Kind == "array") && !generatesOutsidePointerCtx(d, ch, map[string]bool{}) {
+		if ptrFalse && chUser && (bt.Kind == "map" || bt.Kind == "array") && !generatesOutsidePointerCtx(d, ch, map[string]bool{}) {
 			return true
 		}
 	}
